@@ -111,6 +111,15 @@ CHECKS = {
             'prefixes) through the real binary; oracle = reference matcher from doc/dfs.1.',
             'Strings outside the documented grammar only have to not crash; catalogue names never contain . : # *.',
             'bounded-exhaustive pattern x name matrix against a reference matcher'),
+    'C16': ('model_checking', '4 C16',
+            'Explicit-state exploration of the real transition function StorageConfiguration::connect_drives (in-process, '
+            'ASan): every attach history over surface counts {1,2,3,5} x {PHYSICAL, FIRST} to depth 5 (quick) / 6 (thorough) '
+            'plus 511-surface images, invariants I1-I4 evaluated in every state and every state compared with a reference '
+            'allocation model; TLC model-checks spec/DriveAlloc.tla (same invariants) and every reachable model state is '
+            'replayed against the implementation; addressing of every drive number is checked through the real binary on real '
+            'image files (ssd, dsd, two-sided ssd, hfe, mfm, mmb).',
+            'Dummy drives stand for surfaces in the in-process executor; TLC bound 4/5 images.',
+            'explicit-state model checking of the real transition function + TLC model with full conformance replay'),
 }
 
 NA_REASON = 'check not built yet (work in progress; see DESIGN.md section 4)'
